@@ -19,6 +19,9 @@ def run(ctx):
     res.floor("view_probes", probes, 300)
     res.floor("membership_changes", changes, 500)
     common.run_rename_storms(ctx, res, "c04:")
+    # members leaving while others' commands fan out (announcements and messages use the same loops): nobody who stays
+    # misses a line because somebody else was just going
+    common.run_storm_kinds(ctx, res, "c04:", ["quitflood", "churn"], 4, 30)
     for r in results[:3]:
         if r.get("tail"):
             res.add_sample({"episode_seed": r["seed"], "last_commands": r["tail"]})
